@@ -94,15 +94,22 @@ def r3_order_independent(cx):
         cb = None
         if d and d[0] == "stmt" and d[3]["rv"]["k"] == "aggregate" and d[3]["rv"].get("agg") == "closure":
             cb = prog.by_did.get(d[3]["rv"]["closure_did"])
+        shift = 0
+        if cb is None and ct["args"][-1].get("k") == "const" and ct["args"][-1].get("fn"):
+            # a named comparator function passed as a value: max_by(Self::compare_candidates)
+            hits = [b for b in prog.bodies if b.path == ct["args"][-1]["fn"] and b.kind != "closure"]
+            if len(hits) == 1:
+                cb = hits[0]
+                shift = -1   # no closure environment parameter
         if cb is None:
-            cx.check("comparator-found", False, site_of(sel, ci), "the ordering used by the fold is not a closure (unrecognised idiom)")
+            cx.check("comparator-found", False, site_of(sel, ci), "the ordering used by the fold is neither a closure nor a local function (unrecognised idiom)")
             continue
         cx.touch(cb)
         nested = [b for b in prog.bodies if b.path.startswith(cb.path + "::{closure")]
         if callee_is(ct, *BY_CALLS):
-            params = (2, 3)
+            params = (2 + shift, 3 + shift)
         else:
-            params = (2,)
+            params = (2 + shift,)
         for p in params:
             reads = _reads_component(cb, p, 0)
             cx.check("comparator-reads-cipher:arg%d" % (p - 1), reads, site_of(cb),
@@ -212,6 +219,20 @@ def r5_wire_id_tables(cx):
                 if callee_is(wtm, "WriteBytesExt::write_u8") and dominated_by_edges(wt, te, wi) and op_const(wtm["args"][1]) is not None:
                     # nearest: not dominated by another later equality's true edge
                     enc.setdefault(st, set()).add(op_const(wtm["args"][1]))
+            # `let id = if *algo == &A {1} else if ..; w.write_u8(id)`: the constant is assigned under the true edge
+            for wi, wtm in wt.calls():
+                if not callee_is(wtm, "WriteBytesExt::write_u8") or op_place(wtm["args"][1]) is None:
+                    continue
+                l = op_place(wtm["args"][1])["l"]
+                for _ in range(8):
+                    sd = defuse(wt).single_def(l)
+                    if sd and sd[0] == "stmt" and sd[3]["rv"]["k"] == "use" and op_local(sd[3]["rv"]["op"]) is not None and not op_place(sd[3]["rv"]["op"]).get("p"):
+                        l = op_local(sd[3]["rv"]["op"])
+                    else:
+                        break
+                for d in defuse(wt).defs.get(l, []):
+                    if d[0] == "stmt" and d[3]["rv"]["k"] == "use" and op_const(d[3]["rv"]["op"]) is not None and dominated_by_edges(wt, te, d[1]):
+                        enc.setdefault(st, set()).add(op_const(d[3]["rv"]["op"]))
     enc = {k: min(v) if len(v) == 1 else sorted(v) for k, v in enc.items()}
     # plain: write_u8(0) under allow_unencrypted
     from ..region import bool_place_edges
@@ -250,6 +271,19 @@ def r5_wire_id_tables(cx):
                 if not rf.cfg.dominates(e, bi2):
                     continue
                 for s2 in rf.blocks[bi2]["stmts"]:
+                    if s2["k"] == "assign" and s2["rv"]["k"] == "aggregate" and s2["rv"].get("agg") == "tuple":
+                        # `list.push((&CIPHER, speed))` directly in the arm
+                        for o2 in s2["rv"]["ops"]:
+                            cur = o2
+                            for _ in range(4):
+                                o = origin(rf, cur)
+                                if o[0] == "const" and o[1].get("static"):
+                                    statics[v] = o[1]["static"]
+                                    break
+                                if o[0] == "rvalue" and o[2]["rv"]["k"] == "ref":
+                                    cur = {"k": "copy", "place": o[2]["rv"]["place"]}
+                                    continue
+                                break
                     if s2["k"] == "assign" and s2["rv"]["k"] == "aggregate" and s2["rv"].get("variant") == "Some" and s2["rv"]["ops"]:
                         cur = s2["rv"]["ops"][0]
                         for _ in range(4):
@@ -315,7 +349,7 @@ def r7_every_advertised_cipher_considered(cx):
             r = deep_root(rf, ct["args"][0])
             if r is not None and r["l"] in lists:
                 pushes.append(ci)
-    cx.exact("list-pushes", len(pushes), 1, "pushes into the decoded cipher list")
+    cx.floor("list-pushes", len(pushes), 1, "pushes into the decoded cipher list")
     if not pushes:
         return
     loops = [li for li in loops_of(rf) if all(p in li.blocks for p in pushes)]
@@ -344,35 +378,38 @@ def r7_every_advertised_cipher_considered(cx):
     derived = forward_taint(rf, seed_locals=sorted(seeds), mut_args=False)
     err_defs = {bi for (k, bi, _i) in result_return_sites(rf) if k in ("err", "residual")}
     ok_defs = {bi for (k, bi, _i) in result_return_sites(rf) if k not in ("err", "residual")}
+    PB = set(pushes)
     pb = pushes[0]
     exhaust = set(li.exhaust_exits)
     bad = []
     checked = 0
+
+    inside = set(li.blocks)
+    outside = [x for x in cfg.reach if x not in inside]
+    exhaust_targets = {dst for (_src, dst) in li.exhaust_exits}
+
     for s2 in sorted(li.blocks):
         tt = rf.blocks[s2]["term"]
         if tt["k"] != "switch":
             continue
         succs = cfg.succ[s2]
-        kinds = []
-        for k, t in enumerate(succs):
-            if (s2, t) in exhaust:
-                kinds.append("exhaust")
-                continue
-            reach = cfg.reachable_from([t], avoid_blocks=[pb])
-            if t == pb or (pb in cfg.reachable_from([t]) and li.header not in reach and not (reach & ok_defs)):
-                kinds.append("push")          # every way on passes the push
-            elif li.header in reach or t == li.header:
-                kinds.append("skip" if pb not in cfg.reachable_from([t], avoid_blocks=[li.header]) or True else "maybe")
-            elif reach & ok_defs:
-                kinds.append("leave")         # leaves the loop towards a normal result without pushing
-            else:
-                kinds.append("error")
-        if "exhaust" in kinds:
+        if any((s2, t) in exhaust for t in succs):
             continue
-        # does this branch decide between pushing and not pushing (skip the entry / leave the loop normally)?
-        can_push = [k for k, t in enumerate(succs) if t == pb or pb in cfg.reachable_from([t], avoid_blocks=[li.header])]
-        cannot = [k for k, t in enumerate(succs) if not (t == pb or pb in cfg.reachable_from([t], avoid_blocks=[li.header])) and kinds[k] != "error"]
-        if not can_push or not cannot:
+        can_push, skip_only = [], []
+        for k, t in enumerate(succs):
+            if t not in inside:
+                # leaving the loop: towards the continuation of a complete scan (a `break`) or towards an error
+                if t in exhaust_targets:
+                    skip_only.append(k)
+                continue
+            r_in = cfg.reachable_from([t], avoid_blocks=outside + [li.header])
+            if t in PB or (PB & r_in):
+                can_push.append(k)
+            else:
+                r_skip = cfg.reachable_from([t], avoid_blocks=outside + list(PB))
+                if li.header in r_skip or t == li.header or (r_skip & exhaust_targets):
+                    skip_only.append(k)
+        if not can_push or not skip_only:
             continue
         checked += 1
         dl = op_local(tt["discr"])
